@@ -135,7 +135,8 @@ def mini7z(folders, crc="folder", header="raw", pack_crc=False):
     own writer never produces.  folders: [(chain, [(name, data), ...]), ...].
     crc: "folder" (kCRC in UnpackInfo only: 7-Zip's non-solid layout when each folder holds one file),
          "substream" (kCRC in SubStreamsInfo), "both".
-    header: "raw" | "lzma" (encoded, folder CRC of the header stored, as 7-Zip does) | "lzma-nocrc"."""
+    header: "raw" | "lzma" (encoded, folder CRC of the header stored, as 7-Zip does) | "lzma-nocrc" |
+            "copy" (encoded with the Copy coder, CRC stored: only that CRC stands between damage and the parser)."""
     packed, fbytes, usizes, fcrcs = [], b"", b"", []
     for chain, ms in folders:
         whole = b"".join(d for _, d in ms)
@@ -176,10 +177,10 @@ def mini7z(folders, crc="folder", header="raw", pack_crc=False):
     h += b"\x00\x00"
     body = b"".join(packed)
     if header != "raw":
-        ph, mid, props = _enc("lzma2", h)
+        ph, mid, props = _enc("copy" if header == "copy" else "lzma2", h)
         eh = b"\x17\x06" + number(len(body)) + number(1) + b"\x09" + number(len(ph)) + b"\x00"
         eh += b"\x07\x0b" + number(1) + b"\x00" + _coder(mid, props) + b"\x0c" + number(len(h))
-        if header == "lzma":
+        if header in ("lzma", "copy"):
             eh += b"\x0a\x01" + struct.pack("<L", zlib.crc32(h))
         eh += b"\x00\x00"
         body += ph
@@ -226,21 +227,23 @@ def archive_specs(tier):
 
     py("copy/raw", M3, "copy", encoded=False)
     py("lzma2/encoded", M3, "lzma2", encoded=True)
-    py("deflate/raw", M2, "deflate", encoded=False)
-    py("bzip2/raw", M1, "bzip2", encoded=False)
-    py("zstd/raw", M2, "zstd", encoded=False)
-    py("ppmd/raw", M2, "ppmd", encoded=False)
+    py("deflate/raw", M2, "deflate", encoded=False, reduced=True)
+    py("bzip2/raw", M1, "bzip2", encoded=False, reduced=True)
+    py("zstd/raw", M2, "zstd", encoded=False, reduced=True)
+    py("ppmd/raw", M2, "ppmd", encoded=False, reduced=True)
     py("copy+aes/raw", M2, "copy+aes", encoded=False)
-    py("lzma2+aes/encrypted", M1, "lzma2+aes", encoded=True, header_enc=True)
+    py("lzma2+aes/encrypted", M1, "lzma2+aes", encoded=True, header_enc=True, reduced=True)
     py("copy+aes/encrypted long name", MLONG, "copy+aes", encoded=True, header_enc=True)
     py("copy|lzma2|deflate/raw 3 folders", M1, "copy", encoded=False, sessions=[(M2[:1], "lzma2"), ([("q", b"qqqqqqqq")], "deflate")])
     S.append({"label": "symlink copy/raw", "kind": "symlink", "path": True})
     S.append({"label": "mini copy folder-crc/raw 2 folders", "kind": "mini", "folders": [("copy", M1), ("copy", M2[:1])],
               "crc": "folder", "header": "raw"})
     S.append({"label": "mini lzma2 folder-crc/lzma+crc", "kind": "mini", "folders": [("lzma2", M2[:1])], "crc": "folder",
-              "header": "lzma"})
+              "header": "lzma", "reduced": True})
     S.append({"label": "mini deflate substream-crc/lzma+crc", "kind": "mini", "folders": [("deflate", M2)],
-              "crc": "substream", "header": "lzma"})
+              "crc": "substream", "header": "lzma", "reduced": True})
+    S.append({"label": "mini copy substream-crc/copy+crc", "kind": "mini", "folders": [("copy", M2)],
+              "crc": "substream", "header": "copy", "reduced": True})
     if tier != "quick":
         for ch in ["copy", "lzma2", "lzma", "deflate", "bzip2", "zstd", "ppmd", "brotli", "delta+lzma2", "x86+lzma2",
                    "arm+lzma", "x86+deflate", "x86+bzip2"]:
@@ -270,10 +273,17 @@ def archive_specs(tier):
 
 def build_archive(spec):
     from harness import arch
+    import py7zr.compressor as comp
     if spec["kind"] == "py7zr":
         pw = "secret" if arch.needs_pw(spec["chain"]) else None
-        data = arch.make_archive(spec["members"], spec["chain"], password=pw, header_enc=spec.get("header_enc", False),
-                                 encoded=spec.get("encoded", True), sessions=spec.get("sessions"))
+        ivs = random.Random(spec["label"])                 # AES IVs: reproducible archives (documented patch point)
+        saved = comp.get_random_bytes
+        comp.get_random_bytes = lambda n: ivs.randbytes(n)
+        try:
+            data = arch.make_archive(spec["members"], spec["chain"], password=pw, header_enc=spec.get("header_enc", False),
+                                     encoded=spec.get("encoded", True), sessions=spec.get("sessions"))
+        finally:
+            comp.get_random_bytes = saved
         return data, pw
     if spec["kind"] == "symlink":
         return symlink_archive(spec.get("encoded", False)), None
@@ -534,18 +544,30 @@ def batch_worker(arg):
 
 
 # ====================================================================== mutation sets
-def mutation_set(base, regs, rng, tier, large=False):
+def mutation_set(base, regs, rng, tier, large=False, reduced=False):
+    """full: every bit, every truncation length, overwrites everywhere.  reduced (quick tier, second half of the
+    archives): every bit of the start header and of the packed streams (the regions only decoders and member CRCs
+    guard), every 4th bit of the next header (one CRC guards all of it), every 3rd truncation length."""
     n = len(base)
     muts = []
     packed = [(a, b) for a, b, lab in regs if lab in ("packed", "encoded-header-stream")]
-    if not large:
+    if reduced:
+        dense = [False] * n
+        for a, b, lab in regs:
+            if lab != "next-header":
+                for i in range(a, min(b, n)):
+                    dense[i] = True
+        muts += [["flip", i] for i in range(8 * n) if dense[i >> 3] or i % 4 == 1]
+        muts += [["trunc", k] for k in range(0, n, 3)]
+        nb = 100
+    elif not large:
         muts += [["flip", i] for i in range(8 * n)]                     # exhaustive
         muts += [["trunc", k] for k in range(n)]                        # every truncation length
         step = 1 if tier != "quick" else 3
         for p in range(0, n, step):
             muts.append(["ow", p, "%02x" % (base[p] ^ 0xFF)])
             muts.append(["ow", p, "00" if base[p] else "01"])
-        nb = 400 if tier == "quick" else 3000
+        nb = 250 if tier == "quick" else 1200
     else:
         pos = set(range(0, 8 * 32))
         for a, b, lab in regs:
@@ -560,7 +582,7 @@ def mutation_set(base, regs, rng, tier, large=False):
         w = rng.choice([2, 3, 8, 9, 16, 17, 31, 32])
         mask = rng.getrandbits(w) | 1 | (1 << (w - 1))
         muts.append(["burst", rng.randrange(8 * n - w + 1), mask])
-    for _ in range(60 if tier == "quick" else 400):                      # multi-byte overwrites
+    for _ in range((20 if reduced else 60) if tier == "quick" else 400):  # multi-byte overwrites
         p = rng.randrange(n)
         muts.append(["ow", p, rng.randbytes(rng.choice([2, 4, 5, 8, 16])).hex()])
     for a, b in packed:                                                  # block swaps inside the packed area
@@ -571,7 +593,7 @@ def mutation_set(base, regs, rng, tier, large=False):
                 y = rng.randrange(x + ln, b - ln + 1)
                 if base[x:x + ln] != base[y:y + ln]:
                     muts.append(["swap", x, y, ln])
-    for _ in range(80 if tier == "quick" else 500):                      # insertions / deletions
+    for _ in range((20 if reduced else 50) if tier == "quick" else 500):  # insertions / deletions
         p = rng.randrange(n + 1)
         muts.append(["ins", p, rng.randbytes(rng.choice([1, 1, 2, 4, 16])).hex()])
         p = rng.randrange(n)
@@ -658,14 +680,14 @@ def explore(ctx):
     for si, spec in enumerate(specs):
         base, pw = build_archive(spec)
         regs, hdrmode = layout(base, pw)
-        muts = mutation_set(base, regs, rng, tier, spec.get("large", False))
+        muts = mutation_set(base, regs, rng, tier, spec.get("large", False), reduced=(tier == "quick" and spec.get("reduced", False)))
         info.append({"spec": spec, "base": base, "pw": pw, "regs": regs, "hdrmode": hdrmode, "n": len(muts)})
         random.Random(ctx["seed"] + si).shuffle(muts)      # spread the slow cases (hangs) over the batches
         muts = [None] + muts
         bs = 120 if pw is None else 100
         for i in range(0, len(muts), bs):
             jobs.append((si, muts[i:i + bs]))
-    timeout = 2.0 if tier == "quick" else 4.0
+    timeout = 2.0 if tier == "quick" else 3.0
     table = {}
     viols = {}
     fatal = {}
@@ -699,13 +721,16 @@ def explore(ctx):
                     redo.setdefault(si, []).append(idx)
         jobs2 = []
         for si, idxs in redo.items():
-            for i in range(0, len(idxs), 8):
-                jobs2.append((si, idxs[i:i + 8]))
+            if tier != "quick" and len(idxs) > 80:          # confirm a sample; the rest keep their first-pass verdict
+                random.Random(ctx["seed"] + si).shuffle(idxs)
+                idxs = sorted(idxs[:80])
+            for i in range(0, len(idxs), 4):
+                jobs2.append((si, idxs[i:i + 4]))
         rep.extra["second_pass_images"] = sum(len(v) for v in redo.values())
 
         def run_job2(j):
             si, idxs = j
-            _, outs = run_job((si, [results[si][i][0] for i in idxs]), mode="fork", tmo=4 * timeout if info[si]["pw"] is None else 30.0)
+            _, outs = run_job((si, [results[si][i][0] for i in idxs]), mode="fork", tmo=(3.0 if tier == "quick" else 6.0) if info[si]["pw"] is None else 30.0)
             return si, idxs, outs
         for si, idxs, outs in ex.map(run_job2, jobs2):
             for i, o in zip(idxs, outs):
@@ -894,6 +919,9 @@ class _FakeDecomp:
     def check_crc(self):
         return False
 
+    def is_complete(self):          # the scripted folder-level error belongs to the folder's last member
+        return True
+
 
 class _FakeFolder:
     def __init__(self, script):
@@ -1001,7 +1029,7 @@ def run_flow_impl(shape, decs, skip, tmp, call):
     else:
         fl = [types.SimpleNamespace(files=flist)] if kind == 1 else [types.SimpleNamespace(files=[mk(f) for f in fo]) for fo in folders]
         header = types.SimpleNamespace(main_streams=types.SimpleNamespace(
-            packinfo=types.SimpleNamespace(packpositions=[0] * (len(fl) + 1)),
+            packinfo=types.SimpleNamespace(packpos=0, packpositions=[0] * (len(fl) + 1)),
             unpackinfo=types.SimpleNamespace(numfolders=len(fl), folders=fl)))
     name_to_id = {"f%d" % f[0]: f[0] for f in files}
     root = pathlib.Path(tempfile.mkdtemp(dir=tmp))
